@@ -17,9 +17,10 @@ directive lists that are permutations of each other (`ds.Perm ds'`):
 * `C05_journal_period_perm` – the journal period (min transaction date, max transaction/price date) that
   clips the report window is the same.
 
-Not mechanised (PARTIAL): that the checker's accept/reject verdict and the *set* of report inserts are
-invariant under permutations inside a (day, kind) block (opens/postings/assertions/closes commute; prices
-under the exclusion of same-day clashes).  Those are decided on every run by the metamorphic check: each
+`Properties/C05Verdict.lean` proves that the checker's accept/reject verdict is invariant
+(`C05_verdict_perm`).  Not mechanised (PARTIAL): that the *set* of report inserts of the balance pipeline is
+invariant under permutations inside a (day, kind) block (prices under the exclusion of same-day clashes).
+That is decided on every run by the metamorphic check: each
 generated journal is rendered in several directive orders and include-tree layouts, loaded by the REAL
 concurrent loader under several schedule seeds, and `check` verdict, `balance` output (byte for byte) and
 `print` output (as a multiset of directives, with identical transaction order) are compared across all
